@@ -467,9 +467,14 @@ impl ProtocolStage for DataRefs {
         for (remote, refs) in &self.remotes {
             let mut signed = HashSet::with_capacity(refs.refs.len());
             for (name, tip) in refs.iter() {
-                let tracking: Namespaced<'_> = Qualified::from_refstr(name)
+                // N.b. `wants_haves` skips the same names. Since they are
+                // signed but not updated, the remote fails validation
+                // with a missing reference.
+                let Some(tracking): Option<Namespaced<'_>> = Qualified::from_refstr(name)
                     .and_then(|q| refs::ReceivedRefname::remote(*remote, q).to_namespaced())
-                    .expect("we checked sigrefs well-formedness in wants_refs already");
+                else {
+                    continue;
+                };
                 signed.insert(tracking.clone());
                 updates.add(
                     *remote,
